@@ -223,6 +223,35 @@ func preconditions(a api, batch uint64, idx int, n int) {
 			if method == "DELETE" && ok2xx(st) { // put the user back for the next rounds
 				a.do("PUT", path, nil, []byte(`{"permissions":["present"]}`))
 			}
+		case x < 9 && r.IntN(2) == 0:
+			// both headers in one request, the If-Match one TRUE (the current tag or *): the
+			// other one still decides.  A write with If-None-Match: * on an existing object
+			// is refused; a read whose If-None-Match names the current tag answers 304.
+			im := cur
+			if r.IntN(3) == 0 {
+				im = "*"
+			}
+			if r.IntN(2) == 0 {
+				st, _, _, err := a.do("PUT", path, map[string]string{"If-Match": im, "If-None-Match": "*"}, body)
+				if err != nil {
+					continue
+				}
+				if ok2xx(st) {
+					fail("write-inm-star-existing-accepted:with-true-if-match", hdrCase{Value: "*", Class: "star+if-match"}, fmt.Sprintf("PUT of an existing %s with If-Match: %s (true) and If-None-Match: * was acknowledged (%d)", obj, im, st))
+				} else {
+					run.Count("inm_star_existing_refused_with_true_if_match", 1)
+				}
+			} else {
+				st, _, _, err := a.do("GET", path, map[string]string{"If-Match": im, "If-None-Match": cur}, nil)
+				if err != nil {
+					continue
+				}
+				if st != 304 {
+					fail("read-inm-current-not-304:with-true-if-match", hdrCase{Value: cur, Class: "current+if-match"}, fmt.Sprintf("GET of a %s with If-Match: %s (true) and If-None-Match naming the current tag %s answered %d, not 304", obj, im, cur, st))
+				} else {
+					run.Count("reads_304_verified_with_true_if_match", 1)
+				}
+			}
 		case x < 9: // write with If-None-Match: * on an existing object
 			st, _, _, err := a.do("PUT", path, map[string]string{"If-None-Match": "*"}, body)
 			if err != nil {
